@@ -157,7 +157,8 @@ def _dir_pipeline(pl, sd, fix, info, cid):
             open(cert, "wb").write(sog)
             signed = out if p2.get("inplace") else os.path.join(sd, "signed.wbn")
             rcs, sos, ses = run("sign-bundle", ["signatures-section", "-i", out, "-o", signed, "-certificate", cert, "-privateKey", os.path.join(fix, "%s-%s.key" % (p2["curve"], p2["keyform"])),
-                                                "-validityUrl", "https://example.com/validity", "-miRecordSize", str(p2["rs"])], sd)
+                                                "-validityUrl", "https://example.com/validity", "-miRecordSize", str(p2["rs"])]
+                                               + (["-expire", p2["expire"]] if p2.get("expire", "default") != "default" else []), sd)
             ev["sign"], ev["sign_exit"] = "sigsection", rcs if rcg == 0 else 90
             rcd, sod, sed = run("dump-bundle", ["-i", signed], sd)
             ev["dump2_exit"] = rcd
@@ -722,7 +723,8 @@ def sig_cli(rep, pid):
             for nc, kf in ((1, "sec1"), (2, "sec1params")):
                 i += 1
                 pl = [{"tool": "gen-bundle -dir", "p": {"names": "nested", "ver": ver, "base": "root", "override": "none"}},
-                      {"tool": "sign-bundle signatures-section", "p": {"keyform": kf, "curve": "p256" if i % 2 else "p384", "rs": 16, "ncerts": nc, "inplace": inplace}},
+                      {"tool": "sign-bundle signatures-section", "p": {"keyform": kf, "curve": "p256" if i % 2 else "p384", "rs": 16, "ncerts": nc, "inplace": inplace,
+                                                                       "expire": ("default", "168h", "167h59m30s", "10m")[i % 4]}},
                       {"tool": "dump-bundle", "p": {"x": 0}}]
                 sd = vlib.fresh(os.path.join(scratch, "s%d" % i))
                 events += _dir_pipeline(pl, sd, fix, info, "sigcli%d" % i)
